@@ -1,4 +1,734 @@
-use crate::{json::J, Ctx};
-pub fn c14(_ctx: &Ctx) {}
-pub fn c15(_ctx: &Ctx) {}
-pub fn replay(_m: &str, _c: &J) -> bool { false }
+//! C14 (support / error contract over every metadata triple) and C15 (Unspecified metadata resolution).
+use crate::ev;
+use crate::gen::{hash_mix, hash_px, Rng};
+use crate::json::J;
+use crate::oracle::{MATRICES, PRIMARIES, TRANSFERS};
+use crate::util::*;
+use crate::{Ctx, Tier};
+use std::collections::BTreeMap;
+use yuvxyb::*;
+
+// ---------------------------------------------------------------- independent support tables
+fn std_matrix(m: MC) -> bool {
+    MATRICES.contains(&m)
+}
+fn derived_matrix(m: MC) -> bool {
+    matches!(m, MC::Identity | MC::BT2020ConstantLuminance | MC::ChromaticityDerivedConstantLuminance | MC::ST2085 | MC::ICtCp)
+}
+fn has_chromaticities(p: CP) -> bool {
+    matches!(p, CP::BT709 | CP::BT470M | CP::BT470BG | CP::ST170M | CP::ST240M | CP::Film | CP::BT2020 | CP::P3DCI | CP::P3Display | CP::Tech3213)
+}
+fn matrix_ok(m: MC, p: CP) -> bool {
+    std_matrix(m) || (derived_matrix(m) && has_chromaticities(p))
+}
+fn transfer_ok(t: TC) -> bool {
+    TRANSFERS.contains(&t)
+}
+fn primaries_ok(p: CP) -> bool {
+    PRIMARIES.contains(&p)
+}
+
+type R = Result<u64, ConversionError>; // Ok(hash of output bits)
+
+fn allowed_errors(uses_m: bool, uses_t: bool, uses_p: bool, m: MC, t: TC, p: CP) -> Vec<ConversionError> {
+    let mut v = Vec::new();
+    if uses_m && !matrix_ok(m, p) {
+        v.push(ConversionError::UnsupportedMatrixCoefficients);
+        if derived_matrix(m) {
+            // the matrix is derived from the primaries, which are the field at fault
+            v.push(ConversionError::UnsupportedColorPrimaries);
+        }
+    }
+    if uses_t && !transfer_ok(t) {
+        v.push(ConversionError::UnsupportedTransferCharacteristic);
+    }
+    if uses_p && !primaries_ok(p) {
+        v.push(ConversionError::UnsupportedColorPrimaries);
+    }
+    v
+}
+
+fn hash_data(d: &[[f32; 3]]) -> u64 {
+    d.iter().fold(0x1234, |h, p| hash_mix(h, hash_px(*p)))
+}
+fn hash_yuv<T: Pixel>(y: &Yuv<T>) -> u64 {
+    let mut h = 0x77u64;
+    for pl in 0..3 {
+        let p = &y.data()[pl];
+        for yy in 0..p.cfg.height {
+            for xx in 0..p.cfg.width {
+                h = hash_mix(h, u32::cast_from(p.p(xx, yy)) as u64);
+            }
+        }
+    }
+    h
+}
+
+struct TripleResult {
+    r: [R; 10],
+}
+const CONV_NAMES: [&str; 10] = [
+    "Rgb::try_from(&Yuv)",
+    "Yuv::try_from((&Rgb,cfg))",
+    "LinearRgb::try_from(Rgb)",
+    "Rgb::try_from((LinearRgb,t,p))",
+    "Xyb::try_from(&Yuv)",
+    "Yuv::try_from((Xyb,cfg))",
+    "LinearRgb::try_from(&Yuv)",
+    "Yuv::try_from((LinearRgb,cfg))",
+    "Xyb::try_from(Rgb)",
+    "Rgb::try_from((Xyb,t,p))",
+];
+/// (uses matrix, uses transfer, uses primaries) per conversion
+const CONV_USES: [(bool, bool, bool); 10] = [(true, false, false), (true, false, false), (false, true, true), (false, true, true), (true, true, true), (true, true, true), (true, true, true), (true, true, true), (false, true, true), (false, true, true)];
+/// reverse pairs
+const PAIRS: [(usize, usize, &str); 5] = [(0, 1, "Yuv<->Rgb"), (2, 3, "Rgb<->LinearRgb"), (4, 5, "Yuv<->Xyb"), (6, 7, "Yuv<->LinearRgb"), (8, 9, "Rgb<->Xyb")];
+
+fn run_triple<T: Pixel>(m: MC, p: CP, t: TC) -> Result<TripleResult, String> {
+    ev::guarded(|| {
+        let depth = if std::mem::size_of::<T>() == 1 { 8 } else { 10 };
+        let cfg = cfg_full(m, t, p, false, depth, (0, 0));
+        let k = 1u32 << (depth - 8);
+        let yuv: Yuv<T> = mk_yuv(&[[100 * k, 120 * k, 140 * k], [16 * k, 128 * k, 128 * k], [200 * k, 90 * k, 170 * k]], cfg);
+        let px = vec![[0.2f32, 0.4, 0.6], [0.0, 0.0, 0.0], [0.9, 0.5, 0.1]];
+        let rgb = Rgb::new(px.clone(), 3, 1, t, p).unwrap();
+        let lin = LinearRgb::new(px.clone(), 3, 1).unwrap();
+        let xyb = Xyb::from(LinearRgb::new(px.clone(), 3, 1).unwrap());
+        TripleResult {
+            r: [
+                Rgb::try_from(&yuv).map(|o| hash_data(o.data())),
+                Yuv::<T>::try_from((&rgb, cfg)).map(|o| hash_yuv(&o)),
+                LinearRgb::try_from(rgb.clone()).map(|o| hash_data(o.data())),
+                Rgb::try_from((lin.clone(), t, p)).map(|o| hash_data(o.data())),
+                Xyb::try_from(&yuv).map(|o| hash_data(o.data())),
+                Yuv::<T>::try_from((xyb.clone(), cfg)).map(|o| hash_yuv(&o)),
+                LinearRgb::try_from(&yuv).map(|o| hash_data(o.data())),
+                Yuv::<T>::try_from((lin.clone(), cfg)).map(|o| hash_yuv(&o)),
+                Xyb::try_from(rgb.clone()).map(|o| hash_data(o.data())),
+                Rgb::try_from((xyb.clone(), t, p)).map(|o| hash_data(o.data())),
+            ],
+        }
+    })
+}
+
+fn tj(m: MC, p: CP, t: TC, u8s: bool) -> J {
+    J::obj().set("kind", "c14").set("matrix", format!("{m:?}")).set("primaries", format!("{p:?}")).set("transfer", format!("{t:?}")).set("u8", u8s)
+}
+
+fn judge_triple(m: MC, p: CP, t: TC, u8s: bool, res: &TripleResult, base: &mut BTreeMap<(String, usize, bool), u64>, table: &mut BTreeMap<String, u64>, info_double: &mut u64) {
+    let case = || tj(m, p, t, u8s);
+    for (i, r) in res.r.iter().enumerate() {
+        let (um, ut, up) = CONV_USES[i];
+        let expect_ok = (!um || matrix_ok(m, p)) && (!ut || transfer_ok(t)) && (!up || primaries_ok(p));
+        let name = CONV_NAMES[i];
+        *table.entry(format!("{name} -> {}", match r { Ok(_) => "Ok".to_string(), Err(e) => format!("{e:?}") })).or_insert(0) += 1;
+        match r {
+            Ok(_) if !expect_ok => ev::violation(
+                format!("C14|succeeds-with-unsupported|{name}"),
+                format!("{name} succeeded for ({m:?}, {p:?}, {t:?}) although a field it uses is unsupported"),
+                case().set("conversion", name),
+            ),
+            Err(e) if expect_ok => ev::violation(
+                format!("C14|fails-with-supported|{name}|{e:?}"),
+                format!("{name} failed with {e:?} for ({m:?}, {p:?}, {t:?}) although every field it uses is supported"),
+                case().set("conversion", name),
+            ),
+            Err(e) => {
+                let allowed = allowed_errors(um, ut, up, m, t, p);
+                if !allowed.contains(e) {
+                    ev::violation(
+                        format!("C14|error-names-innocent-field|{name}|{e:?}"),
+                        format!("{name} reported {e:?} for ({m:?}, {p:?}, {t:?}); the offending fields allow only {allowed:?}"),
+                        case().set("conversion", name),
+                    );
+                }
+            }
+            Ok(_) => {}
+        }
+    }
+    for (a, b, pname) in PAIRS {
+        let (ra, rb) = (&res.r[a], &res.r[b]);
+        if ra.is_ok() != rb.is_ok() {
+            ev::violation(
+                format!("C14|asymmetric-support|{pname}"),
+                format!("{} gives {:?} but its reverse {} gives {:?} for ({m:?}, {p:?}, {t:?})", CONV_NAMES[a], ra.as_ref().map(|_| ()), CONV_NAMES[b], rb.as_ref().map(|_| ())),
+                case().set("pair", pname),
+            );
+        } else if let (Err(ea), Err(eb)) = (ra, rb) {
+            if ea != eb {
+                match pname {
+                    "Yuv<->Rgb" => ev::violation(format!("C14|different-errors|{pname}"), format!("{ea:?} vs {eb:?} for ({m:?}, {p:?}, {t:?})"), case().set("pair", pname)),
+                    "Rgb<->LinearRgb" => {
+                        // two fallible stages run in opposite order: equal errors are required only when a single stage is at fault
+                        if transfer_ok(t) != primaries_ok(p) {
+                            ev::violation(format!("C14|different-errors|{pname}"), format!("{ea:?} vs {eb:?} for ({p:?}, {t:?}) although only one stage is at fault"), case().set("pair", pname));
+                        } else {
+                            *info_double += 1;
+                        }
+                    }
+                    _ => {}
+                }
+            }
+        }
+    }
+    // independence: with a standard matrix, Yuv<->Rgb does not depend on transfer or primaries
+    if std_matrix(m) {
+        for i in 0..2 {
+            if let Ok(h) = res.r[i] {
+                let key = (format!("{m:?}"), i, u8s);
+                match base.get(&key) {
+                    None => {
+                        base.insert(key, h);
+                    }
+                    Some(b) if *b != h => ev::violation(
+                        format!("C14|depends-on-unused-metadata|{}", CONV_NAMES[i]),
+                        format!("{} with matrix {m:?} gives different bits for ({p:?}, {t:?}) than for other transfer/primaries", CONV_NAMES[i]),
+                        case().set("conversion", CONV_NAMES[i]),
+                    ),
+                    _ => {}
+                }
+            }
+        }
+    }
+}
+
+pub fn c14(ctx: &Ctx) {
+    // all 14 x 13 x 18 fully specified triples
+    let mut triples = Vec::new();
+    for m in ALL_MC {
+        for p in ALL_CP {
+            for t in ALL_TC {
+                triples.push((m, p, t));
+            }
+        }
+    }
+    let mut orders: Vec<(String, Vec<usize>)> = vec![("nested m>p>t".into(), (0..triples.len()).collect()), ("reversed".into(), (0..triples.len()).rev().collect())];
+    let mut rng = Rng::new(ctx.seed, 0x0C14);
+    let npass = if ctx.tier == Tier::Thorough { 12 } else { 3 };
+    for k in 0..npass {
+        let mut o: Vec<usize> = (0..triples.len()).collect();
+        for i in (1..o.len()).rev() {
+            o.swap(i, rng.below(i as u64 + 1) as usize);
+        }
+        orders.push((format!("seed-shuffled #{k}"), o));
+    }
+    // orders that keep the matrix fixed while primaries vary fastest, and vice versa (history-sensitive defects)
+    let mut o2: Vec<usize> = (0..triples.len()).collect();
+    o2.sort_by_key(|i| {
+        let (m, p, t) = triples[*i];
+        (ALL_TC.iter().position(|x| *x == t), ALL_MC.iter().position(|x| *x == m), ALL_CP.iter().position(|x| *x == p))
+    });
+    orders.push(("t>m>p".into(), o2));
+    let mut table: BTreeMap<String, u64> = BTreeMap::new();
+    let mut info_double = 0u64;
+    let mut evals = 0u64;
+    let mut panics = 0u64;
+    let mut first_pass_results: BTreeMap<(usize, bool), Vec<Option<u64>>> = BTreeMap::new();
+    for (oi, (oname, order)) in orders.iter().enumerate() {
+        let mut base: BTreeMap<(String, usize, bool), u64> = BTreeMap::new();
+        for &ti in order {
+            let (m, p, t) = triples[ti];
+            for u8s in [true, false] {
+                let res = if u8s { run_triple::<u8>(m, p, t) } else { run_triple::<u16>(m, p, t) };
+                evals += 10;
+                match res {
+                    Err(msg) => {
+                        panics += 1;
+                        ev::violation(format!("C14|panic|{}", ev::panic_site(&msg)), format!("a conversion panicked for ({m:?}, {p:?}, {t:?}): {msg}"), tj(m, p, t, u8s));
+                    }
+                    Ok(res) => {
+                        let mut tb = BTreeMap::new();
+                        judge_triple(m, p, t, u8s, &res, &mut base, if oi == 0 { &mut table } else { &mut tb }, &mut info_double);
+                        // results must not depend on the order in which triples were visited
+                        let sig: Vec<Option<u64>> = res.r.iter().map(|r| r.as_ref().ok().copied()).collect();
+                        match first_pass_results.get(&(ti, u8s)) {
+                            None => {
+                                first_pass_results.insert((ti, u8s), sig);
+                            }
+                            Some(prev) if *prev != sig => {
+                                let which = (0..10).find(|i| prev[*i] != sig[*i]).unwrap_or(0);
+                                ev::violation(
+                                    format!("C14|history-dependent|{}", CONV_NAMES[which]),
+                                    format!("{} for ({m:?}, {p:?}, {t:?}) gives a different result in visiting order '{oname}' than in the first pass", CONV_NAMES[which]),
+                                    tj(m, p, t, u8s).set("conversion", CONV_NAMES[which]).set("order", oname.as_str()),
+                                );
+                            }
+                            _ => {}
+                        }
+                    }
+                }
+            }
+        }
+    }
+    ev::observe("triples", triples.len());
+    ev::observe("visiting_orders", J::Arr(orders.iter().map(|(n, _)| J::from(n.as_str())).collect()));
+    ev::observe("panics", panics);
+    ev::observe("result_table_first_pass(conversion -> outcome: count over triples x {u8,u16})", J::Obj(table.iter().map(|(k, v)| (k.clone(), J::from(*v))).collect()));
+    ev::observe("INFO_rgb_linear_double_fault_cases_with_different_errors", info_double);
+    ev::sample(J::obj().set("triple", "(Identity, Reserved, PerceptualQuantizer)").set("expect", "Yuv<->Rgb Err(UnsupportedColorPrimaries|UnsupportedMatrixCoefficients), Rgb<->LinearRgb Err(UnsupportedColorPrimaries)"));
+    ev::sample(J::obj().set("triple", "(BT709, ST428, BT1361E)").set("expect", "Yuv<->Rgb Ok; Rgb<->LinearRgb Err(UnsupportedTransferCharacteristic)"));
+    ev::add_evals(evals);
+    ev::add_nontrivial(triples.len() as u64 * 2);
+    ev::exhaustive(true);
+    ev::rule(
+        "all 14 x 13 x 18 = 3276 fully specified (matrix, primaries, transfer) triples x {u8/8-bit, u16/10-bit}, 10 conversions each (5 reverse pairs), judged against independent support tables; \
+         the whole enumeration repeated in several visiting orders (nested, reversed, transfer-major, seed-shuffled) on one thread, and every result compared with the first pass, so that state carried from one conversion to the next is observable. \
+         distinct = triples x storage types (enumerated)",
+    );
+}
+
+// ================================================================ C15
+fn guess_matrix(w: usize, h: usize) -> MC {
+    if w >= 1280 || h > 576 {
+        MC::BT709
+    } else if h == 576 {
+        MC::BT470BG
+    } else {
+        MC::ST170M
+    }
+}
+fn guess_primaries(m: MC, w: usize, h: usize) -> CP {
+    if m == MC::BT2020NonConstantLuminance || m == MC::BT2020ConstantLuminance {
+        CP::BT2020
+    } else if m == MC::BT709 || w >= 1280 || h > 576 {
+        CP::BT709
+    } else if h == 576 {
+        CP::BT470BG
+    } else if h == 480 || h == 488 {
+        CP::ST170M
+    } else {
+        CP::BT709
+    }
+}
+/// the documented mpv table (the monitor's own copy)
+pub fn resolve(c: YuvConfig, w: usize, h: usize) -> YuvConfig {
+    let mut o = c;
+    if o.matrix_coefficients == MC::Unspecified {
+        o.matrix_coefficients = guess_matrix(w, h);
+    }
+    if o.color_primaries == CP::Unspecified {
+        o.color_primaries = guess_primaries(o.matrix_coefficients, w, h);
+    }
+    if o.transfer_characteristics == TC::Unspecified {
+        o.transfer_characteristics = TC::BT1886;
+    }
+    o
+}
+
+fn c15_sizes() -> Vec<(usize, usize)> {
+    let hs: Vec<usize> = [1usize, 2, 3, 4, 16].into_iter().chain(479..=489).chain(575..=577).chain([720, 1080, 1279, 1280, 1281]).collect();
+    let ws: Vec<usize> = [1usize, 2, 3, 4, 16].into_iter().chain([479, 480, 481, 488, 575, 576, 577, 720]).chain(1279..=1281).chain([1920]).collect();
+    let mut v = Vec::new();
+    for &w in &ws {
+        for &h in &hs {
+            // keep frames small: one side may be large, both only for a few sizes
+            if w <= 16 || h <= 16 || (w == 1920 && h == 1080) || (w == 1280 && h == 720) || (w == 720 && (h == 576 || h == 480)) || (w == h) {
+                v.push((w, h));
+            }
+        }
+    }
+    v
+}
+
+fn subsets(c: YuvConfig, mask: u8) -> YuvConfig {
+    let mut o = c;
+    if mask & 1 != 0 {
+        o.matrix_coefficients = MC::Unspecified;
+    }
+    if mask & 2 != 0 {
+        o.color_primaries = CP::Unspecified;
+    }
+    if mask & 4 != 0 {
+        o.transfer_characteristics = TC::Unspecified;
+    }
+    o
+}
+fn has_unspec(c: &YuvConfig) -> bool {
+    c.matrix_coefficients == MC::Unspecified || c.color_primaries == CP::Unspecified || c.transfer_characteristics == TC::Unspecified
+}
+
+fn c15_table(ctx: &Ctx) -> (u64, u64) {
+    let sizes = c15_sizes();
+    let all_m: Vec<MC> = ALL_MC.iter().copied().chain([MC::Unspecified]).collect();
+    let evals = std::sync::atomic::AtomicU64::new(0);
+    let guessed: std::sync::Mutex<BTreeMap<String, u64>> = std::sync::Mutex::new(BTreeMap::new());
+    ev::par_ranges("C15", sizes.len() as u64, 1, |_w, a, _b| {
+        let (w, h) = sizes[a as usize];
+        let f8: Frame<u8> = mk_frame(w, h, (0, 0), 0, |_, x, y| ((x + y) % 200) as u32);
+        let f16: Frame<u16> = mk_frame(w, h, (0, 0), 0, |_, x, y| ((x * 3 + y) % 1000) as u32);
+        let mut n = 0u64;
+        let mut lg: BTreeMap<String, u64> = BTreeMap::new();
+        for (mi, &m) in all_m.iter().enumerate() {
+            for mask in 0u8..8 {
+                let p0 = PRIMARIES[(mi + mask as usize) % 11];
+                let t0 = TRANSFERS[(mi * 3 + mask as usize) % 14];
+                for (depth, u8s) in [(8u8, true), (10, false), (16, false)] {
+                    // large u16 frames at depth 10 cost a full sample scan: only for small sizes
+                    if !u8s && depth == 10 && w * h > 200_000 {
+                        continue;
+                    }
+                    let base = cfg_full(m, t0, p0, mask % 2 == 0, depth, (0, 0));
+                    let c = subsets(base, mask);
+                    let want = resolve(c, w, h);
+                    let got = ev::guarded(|| if u8s { Yuv::new(f8.clone(), c).map(|y| (y.config(), y.width(), y.height())) } else { Yuv::new(f16.clone(), c).map(|y| (y.config(), y.width(), y.height())) });
+                    n += 1;
+                    let case = || J::obj().set("kind", "c15-table").set("w", w).set("h", h).set("cfg", cfg_json(&c)).set("u8", u8s);
+                    match got {
+                        Err(msg) => ev::violation(format!("C15|panic|{}", ev::panic_site(&msg)), msg, case()),
+                        Ok(Err(e)) => ev::violation("C15|yuv-new-rejected", format!("Yuv::new rejected a well-formed {w}x{h} frame: {e:?}"), case()),
+                        Ok(Ok((cfg, gw, gh))) => {
+                            if has_unspec(&cfg) {
+                                ev::violation(format!("C15|still-unspecified|Yuv::new|depth={depth}"), format!("Yuv::new({w}x{h}, {c:?}).config() = {cfg:?} still reports Unspecified"), case());
+                            } else if cfg != want {
+                                let field = if cfg.matrix_coefficients != want.matrix_coefficients { "matrix" } else if cfg.color_primaries != want.color_primaries { "primaries" } else if cfg.transfer_characteristics != want.transfer_characteristics { "transfer" } else { "other" };
+                                ev::violation(
+                                    format!("C15|resolution-table|{field}"),
+                                    format!("Yuv::new({w}x{h}) resolved {c:?} to {cfg:?}; the documented heuristic gives {want:?}"),
+                                    case(),
+                                );
+                            }
+                            if (gw, gh) != (w, h) {
+                                ev::violation("C15|dims", format!("{gw}x{gh}"), case());
+                            }
+                            if has_unspec(&c) {
+                                *lg.entry(format!("{:?}/{:?}/{:?}", cfg.matrix_coefficients, cfg.color_primaries, cfg.transfer_characteristics)).or_insert(0) += 1;
+                            }
+                        }
+                    }
+                }
+            }
+        }
+        evals.fetch_add(n, std::sync::atomic::Ordering::Relaxed);
+        let mut g = guessed.lock().unwrap();
+        for (k, v) in lg {
+            *g.entry(k).or_insert(0) += v;
+        }
+    });
+    // Rgb::new: Unspecified -> sRGB / BT709
+    let mut n2 = 0u64;
+    for t in ALL_TC.iter().copied().chain([TC::Unspecified]) {
+        for p in ALL_CP.iter().copied().chain([CP::Unspecified]) {
+            for (w, h) in [(1usize, 1usize), (2, 576), (1280, 1)] {
+                n2 += 1;
+                let r = Rgb::new(vec![[0.5; 3]; w * h], w, h, t, p).unwrap();
+                let wt = if t == TC::Unspecified { TC::SRGB } else { t };
+                let wp = if p == CP::Unspecified { CP::BT709 } else { p };
+                if r.transfer() != wt || r.primaries() != wp {
+                    ev::violation("C15|resolution-table|Rgb::new", format!("Rgb::new({t:?},{p:?}) reports ({:?},{:?}), expected ({wt:?},{wp:?})", r.transfer(), r.primaries()), J::obj().set("kind", "c15-rgbnew").set("transfer", format!("{t:?}")).set("primaries", format!("{p:?}")));
+                }
+            }
+        }
+    }
+    let g = guessed.lock().unwrap();
+    ev::observe("resolved_triples_histogram(matrix/primaries/transfer: constructions with an Unspecified field)", J::Obj(g.iter().map(|(k, v)| (k.clone(), J::from(*v))).collect()));
+    ev::observe("table_sizes", sizes.len());
+    let _ = ctx;
+    (evals.load(std::sync::atomic::Ordering::Relaxed) + n2, sizes.len() as u64)
+}
+
+fn max_code_diff<T: Pixel>(a: &Yuv<T>, b: &Yuv<T>) -> f64 {
+    let mut worst = 0.0f64;
+    for pl in 0..3 {
+        let (pa, pb) = (&a.data()[pl], &b.data()[pl]);
+        if pa.cfg.width != pb.cfg.width || pa.cfg.height != pb.cfg.height {
+            return f64::INFINITY;
+        }
+        for y in 0..pa.cfg.height {
+            for x in 0..pa.cfg.width {
+                let d = (u32::cast_from(pa.p(x, y)) as f64 - u32::cast_from(pb.p(x, y)) as f64).abs();
+                worst = worst.max(d);
+            }
+        }
+    }
+    worst
+}
+
+fn in_gamut_colors(rng: &mut Rng, n: usize) -> Vec<[f32; 3]> {
+    let mut v = vec![[0.01f32, 0.2, 0.5], [0.05, 0.05, 0.05], [1.0, 1.0, 1.0], [0.0, 0.0, 0.0], [0.9, 0.1, 0.3], [0.2, 0.8, 0.4]];
+    while v.len() < n {
+        v.push([rng.unit() as f32, rng.unit() as f32, rng.unit() as f32]);
+    }
+    v.truncate(n);
+    v
+}
+
+/// Part 2 for one (size, matrix, mask, depth): conversions into Yuv given Unspecified fields.
+fn c15_labels_case<T: Pixel>(ctx: &Ctx, idx: u64, w: usize, h: usize, m: MC, mask: u8, depth: u8, worst: &mut f64, stats: &mut BTreeMap<String, u64>) -> u64 {
+    let u8s = std::mem::size_of::<T>() == 1;
+    let mut rng = Rng::new(ctx.seed, 0x0C15_0000 + idx);
+    let p0 = PRIMARIES[(idx % 10) as usize + usize::from(idx % 10 >= 7)]; // skip ST428 (index 7)
+    let t0 = TRANSFERS[((idx / 3) % 14) as usize];
+    let base = cfg_full(m, t0, p0, idx % 2 == 0, depth, (0, 0));
+    let c = subsets(base, mask);
+    let want = resolve(c, w, h);
+    let budget = crate::mon_xyb::budget_codes(depth);
+    let case = |what: &str| J::obj().set("kind", "c15-labels").set("w", w).set("h", h).set("cfg", cfg_json(&c)).set("u8", u8s).set("conversion", what).set("seed", ctx.seed).set("index", idx);
+    let n = w * h;
+    // in-gamut content: RGB in [0,1]^3 in the space the resolved config names, linearised by the library
+    let colors = in_gamut_colors(&mut rng, n.min(64));
+    let px: Vec<[f32; 3]> = (0..n).map(|i| colors[i % colors.len()]).collect();
+    let rgb_in = Rgb::new(px.clone(), w, h, want.transfer_characteristics, want.color_primaries).unwrap();
+    let Ok(lin_in) = LinearRgb::try_from(rgb_in.clone()) else { return 0 };
+    let xyb_in = Xyb::from(lin_in.clone());
+    let mut evals = 0u64;
+    for (what, src) in [("Yuv::try_from((LinearRgb,cfg))", 0), ("Yuv::try_from((Xyb,cfg))", 1), ("Yuv::try_from((Rgb,cfg))", 2), ("Yuv::try_from((&Rgb,cfg))", 3)] {
+        let call = |cfg: YuvConfig| -> Result<Yuv<T>, ConversionError> {
+            match src {
+                0 => Yuv::try_from((lin_in.clone(), cfg)),
+                1 => Yuv::try_from((xyb_in.clone(), cfg)),
+                2 => Yuv::try_from((rgb_in.clone(), cfg)),
+                _ => Yuv::try_from((&rgb_in, cfg)),
+            }
+        };
+        evals += 1;
+        let y1 = match ev::guarded(|| call(c)) {
+            Err(msg) => {
+                ev::violation(format!("C15|panic|{}", ev::panic_site(&msg)), msg, case(what));
+                continue;
+            }
+            Ok(Err(_)) => {
+                *stats.entry(format!("{what}: Err")).or_insert(0) += 1;
+                continue; // the property speaks about calls that succeed
+            }
+            Ok(Ok(y)) => y,
+        };
+        *stats.entry(format!("{what}: Ok")).or_insert(0) += 1;
+        let c1 = y1.config();
+        if has_unspec(&c1) {
+            ev::violation(format!("C15|still-unspecified|{what}|depth={depth}"), format!("{what} with {c:?} on a {w}x{h} image stores config {c1:?}"), case(what));
+            continue;
+        }
+        if c1 != want {
+            ev::violation(format!("C15|resolution-table|{what}"), format!("{what} with {c:?} on {w}x{h} stores {c1:?}; the documented heuristic gives {want:?}"), case(what));
+            continue;
+        }
+        // (iii) same call with the stored config given explicitly
+        if let Ok(y2) = call(c1) {
+            let d = max_code_diff(&y1, &y2) / budget;
+            if d > *worst {
+                *worst = d;
+            }
+            if !(d <= 1.0) {
+                ev::violation(
+                    format!("C15|label-vs-content|{what}|explicit-config"),
+                    format!("{what} on {w}x{h}: given {c:?} the output differs by {:.0} codes (budget {budget:.1}) from the output for its own stored config {c1:?}", d * budget),
+                    case(what),
+                );
+                continue;
+            }
+        } else {
+            ev::violation(format!("C15|explicit-config-fails|{what}"), format!("the stored config {c1:?} is rejected when given explicitly"), case(what));
+            continue;
+        }
+        // (ii) decode with the stored labels and re-encode both with the fully specified c1
+        let ok = match src {
+            0 | 1 => LinearRgb::try_from(&y1).ok().and_then(|back| {
+                let a: Yuv<T> = Yuv::try_from((lin_in.clone(), c1)).ok()?;
+                let b: Yuv<T> = Yuv::try_from((back, c1)).ok()?;
+                Some(max_code_diff(&a, &b))
+            }),
+            _ => Rgb::try_from(&y1).ok().and_then(|back| {
+                let a: Yuv<T> = Yuv::try_from((&rgb_in, c1)).ok()?;
+                let b: Yuv<T> = Yuv::try_from((&back, c1)).ok()?;
+                Some(max_code_diff(&a, &b))
+            }),
+        };
+        match ok {
+            None => ev::violation(format!("C15|own-labels-do-not-decode|{what}"), format!("the output of {what} cannot be decoded / re-encoded with its own config {c1:?}"), case(what)),
+            Some(d) => {
+                let r = d / budget;
+                if r > *worst {
+                    *worst = r;
+                }
+                if !(r <= 1.0) {
+                    ev::violation(
+                        format!("C15|label-vs-content|{what}|decode-with-own-config"),
+                        format!("{what} on {w}x{h} with {c:?}: decoding the output with its stored config {c1:?} misses the input by {d:.0} codes (budget {budget:.1})"),
+                        case(what),
+                    );
+                }
+            }
+        }
+    }
+    evals
+}
+
+fn c15_rgb_targets(ctx: &Ctx) -> u64 {
+    // conversions into Rgb given Unspecified transfer/primaries
+    let mut rng = Rng::new(ctx.seed, 0x0C15_AAAA);
+    let px = in_gamut_colors(&mut rng, 64);
+    let mut n = 0u64;
+    for mask in 1u8..4 {
+        for t in TRANSFERS {
+            for p in PRIMARIES {
+                if p == CP::ST428 {
+                    continue;
+                }
+                let tt = if mask & 1 != 0 { TC::Unspecified } else { t };
+                let pp = if mask & 2 != 0 { CP::Unspecified } else { p };
+                let (wt, wp) = (if tt == TC::Unspecified { TC::SRGB } else { tt }, if pp == CP::Unspecified { CP::BT709 } else { pp });
+                // in-gamut content for the target space: RGB in [0,1]^3 carrying the labels the call must resolve to, linearised by the library
+                let Ok(lin) = LinearRgb::try_from(Rgb::new(px.clone(), 8, 8, wt, wp).unwrap()) else { continue };
+                for src in 0..2 {
+                    n += 1;
+                    let what = if src == 0 { "Rgb::try_from((LinearRgb,t,p))" } else { "Rgb::try_from((Xyb,t,p))" };
+                    let case = || J::obj().set("kind", "c15-rgb").set("transfer", format!("{tt:?}")).set("primaries", format!("{pp:?}")).set("conversion", what);
+                    let r = if src == 0 { Rgb::try_from((lin.clone(), tt, pp)) } else { Rgb::try_from((Xyb::from(lin.clone()), tt, pp)) };
+                    let Ok(r) = r else { continue };
+                    if r.transfer() != wt || r.primaries() != wp {
+                        ev::violation(format!("C15|resolution-table|{what}"), format!("{what} given ({tt:?},{pp:?}) labels its output ({:?},{:?}), expected ({wt:?},{wp:?})", r.transfer(), r.primaries()), case());
+                        continue;
+                    }
+                    // decoding with the stored labels reproduces the input (compared as 10-bit full-range BT.709 codes)
+                    let cfgc = cfg_full(MC::BT709, TC::SRGB, CP::BT709, true, 10, (0, 0));
+                    if let Ok(back) = LinearRgb::try_from(r) {
+                        let a: Result<Yuv<u16>, _> = Yuv::try_from((lin.clone(), cfgc));
+                        let b: Result<Yuv<u16>, _> = Yuv::try_from((back, cfgc));
+                        if let (Ok(a), Ok(b)) = (a, b) {
+                            let d = max_code_diff(&a, &b);
+                            if !(d <= crate::mon_xyb::budget_codes(10)) {
+                                ev::violation(format!("C15|label-vs-content|{what}"), format!("{what} given ({tt:?},{pp:?}): decoding with the stored labels misses the input by {d:.0} ten-bit codes"), case());
+                            }
+                        }
+                    }
+                }
+            }
+        }
+    }
+    n
+}
+
+pub fn c15(ctx: &Ctx) {
+    let (n1, nsizes) = c15_table(ctx);
+    // Part 2
+    let sizes: Vec<(usize, usize)> = vec![(2, 576), (576, 2), (2, 480), (480, 2), (2, 488), (488, 2), (1280, 2), (2, 1280), (2, 2), (16, 480), (480, 16), (16, 576), (2, 577), (1279, 2), (6, 481)];
+    let all_m: Vec<MC> = ALL_MC.iter().copied().chain([MC::Unspecified]).collect();
+    let mut cases = Vec::new();
+    for (si, &(w, h)) in sizes.iter().enumerate() {
+        for (mi, &m) in all_m.iter().enumerate() {
+            for mask in 1u8..8 {
+                for (di, depth) in [8u8, 10, 12, 16].iter().enumerate() {
+                    cases.push((w, h, m, mask, *depth, (si * 1000 + mi * 50 + mask as usize * 5 + di) as u64));
+                }
+            }
+        }
+    }
+    let worst = std::sync::Mutex::new(0.0f64);
+    let stats: std::sync::Mutex<BTreeMap<String, u64>> = std::sync::Mutex::new(BTreeMap::new());
+    let n2 = std::sync::atomic::AtomicU64::new(0);
+    ev::par_ranges("C15", cases.len() as u64, 8, |_w, a, b| {
+        let mut lw = 0.0f64;
+        let mut ls = BTreeMap::new();
+        let mut n = 0u64;
+        for i in a..b {
+            let (w, h, m, mask, depth, idx) = cases[i as usize];
+            n += c15_labels_case::<u16>(ctx, idx, w, h, m, mask, depth, &mut lw, &mut ls);
+            if depth == 8 {
+                n += c15_labels_case::<u8>(ctx, idx, w, h, m, mask, depth, &mut lw, &mut ls);
+            }
+        }
+        n2.fetch_add(n, std::sync::atomic::Ordering::Relaxed);
+        let mut g = worst.lock().unwrap();
+        if lw > *g {
+            *g = lw;
+        }
+        let mut gs = stats.lock().unwrap();
+        for (k, v) in ls {
+            *gs.entry(k).or_insert(0) += v;
+        }
+    });
+    let n3 = c15_rgb_targets(ctx);
+    ev::observe("labels_cases", cases.len());
+    ev::observe("labels_worst_diff_over_budget", *worst.lock().unwrap());
+    ev::observe("labels_call_outcomes", J::Obj(stats.lock().unwrap().iter().map(|(k, v)| (k.clone(), J::from(*v))).collect()));
+    ev::observe("OBSERVATION", "Yuv::try_from((Rgb|&Rgb, cfg)) applies only the matrix; the transfer/primaries labels it stores come from cfg (resolved by the heuristic), not from the Rgb's own labels. This monitor evaluates 'labels match content' on the RGB pixel data for those conversions.");
+    ev::sample(J::obj().set("size", [2, 576]).set("matrix", "ST170M").set("unspecified", "primaries+transfer").set("expected_resolution", "BT470BG / BT1886"));
+    ev::add_evals(n1 + n2.load(std::sync::atomic::Ordering::Relaxed) + n3);
+    ev::add_nontrivial(nsizes * 16 * 7 + cases.len() as u64);
+    ev::exhaustive(false);
+    ev::rule(
+        "Part 1: Yuv::new on real frames of sizes around the heuristic's thresholds (widths/heights {1..4,16,479..489,575..577,720,1080,1279..1281,1920} with one side small, plus square and video sizes) x 15 matrix values x every subset of {matrix,primaries,transfer} set to Unspecified \
+         x {u8/8,u16/10,u16/16}, compared with the monitor's own copy of the documented mpv table; Rgb::new for all transfer x primaries. Part 2: every conversion into Yuv that takes a config (from LinearRgb, Xyb, Rgb, &Rgb) with each non-empty Unspecified subset, \
+         15 sizes hitting every branch in both orientations x 15 matrices x depths 8,10,12,16, in-gamut content: stored config has no Unspecified field, equals the table, output equals (within the C09 budget) the output for the stored config given explicitly, \
+         and decoding with the stored config reproduces the input within the budget; likewise conversions into Rgb. distinct = enumerated (size, matrix, subset, depth) cases",
+    );
+}
+
+pub fn replay(mon: &str, case: &J) -> bool {
+    let kind = case.get("kind").and_then(J::as_str).unwrap_or("");
+    if mon == "C14" && kind == "c14" {
+        let (Some(m), Some(p), Some(t)) = (case.get("matrix").and_then(J::as_str).and_then(mc_by_name), case.get("primaries").and_then(J::as_str).and_then(cp_by_name), case.get("transfer").and_then(J::as_str).and_then(tc_by_name)) else { return false };
+        let u8s = case.get("u8").and_then(J::as_bool).unwrap_or(true);
+        let res = if u8s { run_triple::<u8>(m, p, t) } else { run_triple::<u16>(m, p, t) };
+        ev::add_evals(10);
+        match res {
+            Err(msg) => ev::violation("C14|replay-panic", msg, case.clone()),
+            Ok(r) => {
+                let mut base = BTreeMap::new();
+                let mut tb = BTreeMap::new();
+                let mut info = 0;
+                judge_triple(m, p, t, u8s, &r, &mut base, &mut tb, &mut info);
+                ev::observe("replay", J::Obj(tb.iter().map(|(k, v)| (k.clone(), J::from(*v))).collect()));
+                ev::note("history-dependent violations need the original visiting order: re-run the check with the same seed");
+            }
+        }
+        return true;
+    }
+    if mon == "C15" && kind == "c15-labels" {
+        let (Some(w), Some(h), Some(idx), Some(seed)) = (case.get("w").and_then(J::as_u64), case.get("h").and_then(J::as_u64), case.get("index").and_then(J::as_u64), case.get("seed").and_then(J::as_u64)) else { return false };
+        let Some(cj) = case.get("cfg") else { return false };
+        let m = cj.get("matrix").and_then(J::as_str).and_then(mc_by_name).unwrap_or(MC::BT709);
+        let mut mask = 0u8;
+        if m == MC::Unspecified {
+            mask |= 1;
+        }
+        if cj.get("primaries").and_then(J::as_str) == Some("Unspecified") {
+            mask |= 2;
+        }
+        if cj.get("transfer").and_then(J::as_str) == Some("Unspecified") {
+            mask |= 4;
+        }
+        let depth = cj.get("bit_depth").and_then(J::as_u64).unwrap_or(8) as u8;
+        let ctx = Ctx { monitor: "C15".into(), tier: Tier::Quick, seed, build: String::new(), out: None, args: Default::default() };
+        let mut worst = 0.0;
+        let mut st = BTreeMap::new();
+        // the matrix of the base config: when the case had it Unspecified the base matrix is irrelevant
+        let mb = if m == MC::Unspecified { MC::BT709 } else { m };
+        let n = if case.get("u8").and_then(J::as_bool).unwrap_or(false) {
+            c15_labels_case::<u8>(&ctx, idx, w as usize, h as usize, if mask & 1 != 0 { MC::Unspecified } else { mb }, mask, depth, &mut worst, &mut st)
+        } else {
+            c15_labels_case::<u16>(&ctx, idx, w as usize, h as usize, if mask & 1 != 0 { MC::Unspecified } else { mb }, mask, depth, &mut worst, &mut st)
+        };
+        ev::add_evals(n.max(1));
+        ev::observe("replay_worst_diff_over_budget", worst);
+        return true;
+    }
+    if mon == "C15" && kind == "c15-table" {
+        let (Some(w), Some(h)) = (case.get("w").and_then(J::as_u64), case.get("h").and_then(J::as_u64)) else { return false };
+        let Some(cj) = case.get("cfg") else { return false };
+        let c = cfg_full(
+            cj.get("matrix").and_then(J::as_str).and_then(mc_by_name).unwrap_or(MC::Unspecified),
+            cj.get("transfer").and_then(J::as_str).and_then(tc_by_name).unwrap_or(TC::Unspecified),
+            cj.get("primaries").and_then(J::as_str).and_then(cp_by_name).unwrap_or(CP::Unspecified),
+            cj.get("full_range").and_then(J::as_bool).unwrap_or(false),
+            cj.get("bit_depth").and_then(J::as_u64).unwrap_or(8) as u8,
+            (0, 0),
+        );
+        let (w, h) = (w as usize, h as usize);
+        let got = if c.bit_depth == 8 {
+            let f: Frame<u8> = mk_frame(w, h, (0, 0), 0, |_, _, _| 100);
+            Yuv::new(f, c).map(|y| y.config())
+        } else {
+            let f: Frame<u16> = mk_frame(w, h, (0, 0), 0, |_, _, _| 100);
+            Yuv::new(f, c).map(|y| y.config())
+        };
+        let want = resolve(c, w, h);
+        ev::add_evals(1);
+        ev::observe("replay", J::obj().set("got", format!("{got:?}")).set("want", format!("{want:?}")));
+        if got != Ok(want) {
+            ev::violation("C15|replay", format!("{got:?} vs {want:?}"), case.clone());
+        }
+        return true;
+    }
+    false
+}
